@@ -81,6 +81,8 @@ def gen(rng, tier):
         extras.append({"kind": "optimize", "var": rng.choice(group)})
     if rng.random() < 0.2:
         extras.append({"kind": "pickle", "var": rng.choice(group)})
+    if rng.random() < 0.15:
+        extras.append({"kind": "doptimize", "var": rng.choice(group)})  # dask.optimize(x)[0]: dask's generic driver
     # resubmission: a member that has been submitted once (output keys / records / dask keys read),
     # is then modified in place, and is submitted again with the group
     resubmit = None
@@ -245,7 +247,8 @@ def execute(case, stats, log):
         for j, e in enumerate(case["extras"]):
             ev = {"persist": {"ev": "persist", "var": e["var"], "entry": e.get("entry", "method"), "out": f"x{j}"},
                   "optimize": {"ev": "optimize", "var": e["var"], "out": f"x{j}"},
-                  "pickle": {"ev": "pickle", "var": e["var"], "out": f"x{j}"}}[e["kind"]]
+                  "pickle": {"ev": "pickle", "var": e["var"], "out": f"x{j}"},
+                  "doptimize": {"ev": "doptimize", "var": e["var"], "out": f"x{j}"}}[e["kind"]]
             m.apply(ev)
             members.append((f"x{j}", m.pool[f"x{j}"]))
     except Violation:
@@ -439,3 +442,20 @@ def candidates(case):
         if rs and (rs["var"] not in grp or rs["var"] == victim or rs["var"] in dead):
             rs = None
         yield dict(case, recipe=new, group=grp, extras=ex, resubmit=rs)
+
+
+# --------------------------------------------------------------------------- known finding F33
+
+
+def _pre_f33(case, result):
+    return any(e["kind"] == "doptimize" for e in case.get("extras", []))
+
+
+def _abl_f33(case):
+    """The same group with every dask.optimize(x)[0] member replaced by x.optimize()."""
+    return dict(case, extras=[dict(e, kind="optimize") if e["kind"] == "doptimize" else e for e in case["extras"]])
+
+
+FINDING_ABLATIONS = {
+    "F33": (_pre_f33, _abl_f33),
+}
